@@ -16,6 +16,7 @@ from rsparse import Unsupported  # noqa: E402
 
 
 units.UNITS['Disasm'] = strunits.gen_disasm
+units.UNITS['Asm'] = strunits.gen_asm
 
 
 def main():
